@@ -25,6 +25,7 @@ MODE = H.P('mode', 'api')
 N = H.P('n', 2)                          # max len of $c
 ND = H.P('nd', 2)                        # max len of $d
 NONES = H.P('nones', 1)                  # how many null elements may be injected into $c
+MARGIN = H.P('margin', 2)               # integer arguments range over [-len-MARGIN, len+MARGIN]
 PROBE = H.P('probe_key')
 
 K_UNPACK = 'C13/unpack-lazy-first-element'
@@ -143,10 +144,17 @@ def bounds(c, d, np, np2, i, j, k, r, v, vn):
         return False
     for name, val in (('i', i), ('j', j)):
         if name in uses:
-            if 'c' in uses and not cs['raw'] and not (-n - 2 <= val <= n + 2):
+            if 'c' in uses and not cs['raw'] and not (-n - MARGIN <= val <= n + MARGIN):
                 return False
         elif val != 0:
             return False
+    if cs['small']:
+        for x in c:
+            if not (0 <= x <= 2):
+                return False
+        for name, val in (('i', i), ('k', k), ('r', r)):
+            if name in uses and not (-1 <= val <= 3):
+                return False
     if 'k' not in uses and k != 0:
         return False
     if 'r' not in uses and r != 0:
@@ -298,6 +306,7 @@ def law_thenby(c: List[int], d: List[int], it: bool) -> bool:
 def law_group(c: List[int], np: int, k: int, it: bool) -> bool:
     """
     pre: len(c) <= N and -1 <= np < len(c)
+    pre: H.P('key', 'gtk') == 'gtk' or all(0 <= x <= 2 for x in c)
     post: _
     """
     vals = nn(c, np)
@@ -330,20 +339,33 @@ def law_group(c: List[int], np: int, k: int, it: bool) -> bool:
     return H.done(ok)
 
 
-def law_lists(c: List[int], np: int, i: int, it: bool) -> bool:
+def law_lists(c: List[int], np: int, i: int) -> bool:
     """
     pre: len(c) <= N and -1 <= np < len(c) and 0 <= i <= len(c) + 1
     post: _
     """
     t = nn(c, np)
-    P = pres_iter if it else pres_tuple
-    ok = same(fin(M('reverse', M('reverse', P(t)))), list(t))
-    ok = ok and same(fin(M('take', P(t), i)) + fin(M('skip', P(t), i)), list(t))
-    ok = ok and same(fin(M('concat', M('take', P(t), i), M('skip', P(t), i))), list(t))
-    parts = fin(M('splitAt', P(t), i))
-    ok = ok and same(parts[0] + parts[1], list(t)) and len(parts[0]) == (i if i < len(t) else len(t))
-    en = fin(M('enumerate', P(t)))
-    ok = ok and len(en) == len(t) and same([p[0] for p in en], list(range(len(t)))) and same([p[1] for p in en], list(t))
+    ok = True
+    for P in (pres_tuple, pres_iter):
+        ok = ok and same(fin(M('reverse', M('reverse', P(t)))), list(t))
+        ok = ok and same(fin(M('take', P(t), i)) + fin(M('skip', P(t), i)), list(t))
+        ok = ok and same(fin(M('concat', M('take', P(t), i), M('skip', P(t), i))), list(t))
+    return H.done(ok)
+
+
+def law_split_enum(c: List[int], np: int, i: int) -> bool:
+    """
+    pre: len(c) <= N and -1 <= np < len(c) and 0 <= i <= len(c) + 1
+    post: _
+    """
+    t = nn(c, np)
+    ok = True
+    for P in (pres_tuple, pres_iter):
+        parts = fin(M('splitAt', P(t), i))
+        ok = ok and same(parts[0] + parts[1], list(t)) and len(parts[0]) == (i if i < len(t) else len(t))
+        en = fin(M('enumerate', P(t)))
+        ok = ok and len(en) == len(t) and same([p[0] for p in en], list(range(len(t))))
+        ok = ok and same([p[1] for p in en], list(t))
     return H.done(ok)
 
 
@@ -376,17 +398,28 @@ def law_sets(c: List[int], d: List[int]) -> bool:
     ok = ok and len(fin(M('intersect', frozenset(diff), b))) == 0
     ok = ok and sym == fin(M('difference', frozenset(un), frozenset(inter)))
     ok = ok and len(un) + len(inter) == len(a) + len(b)
+    return H.done(ok)
+
+
+def law_set_order(c: List[int], d: List[int]) -> bool:
+    """
+    pre: len(c) <= N and len(d) <= N
+    post: _
+    """
+    a, b = frozenset(c), frozenset(d)
+    un = fin(M('union', a, b))
     le = yq.ev('$a <= $b', eng=MD.ENG, a=a, b=b)
     lt = yq.ev('$a < $b', eng=MD.ENG, a=a, b=b)
-    ok = ok and le == (un == set(b)) and lt == (le and a != b)
+    ok = isinstance(le, bool) and isinstance(lt, bool) and le == (un == set(b)) and lt == (le and a != b)
     ok = ok and yq.ev('$b >= $a', eng=MD.ENG, a=a, b=b) == le and yq.ev('$b > $a', eng=MD.ENG, a=a, b=b) == lt
-    ok = ok and yq.ev('$a - $b', eng=MD.ENG, a=a, b=b) == diff
+    ok = ok and yq.ev('$a - $b', eng=MD.ENG, a=a, b=b) == fin(M('difference', a, b))
     return H.done(ok)
 
 
 def law_dict(c: List[int], d: List[int], k: int, v: int) -> bool:
     """
-    pre: len(c) <= N and len(d) == len(c)
+    pre: len(c) <= N and len(d) == len(c) and -1 <= k <= 3
+    pre: all(0 <= x <= 2 for x in c)
     post: _
     """
     m = MD.FD(zip(c, d))
@@ -403,11 +436,22 @@ def law_dict(c: List[int], d: List[int], k: int, v: int) -> bool:
     ok = ok and fin(M('containsKey', dele, k)) is False and fin(dele) == fin(M('delete', m, k))
     ok = ok and fin(upd)[k] == v and dict(m) == before
     ok = ok and fin(M('delete', m, k)) == dict((kk, vv) for kk, vv in before.items() if kk != k)
-    # toDict . items = id ; dict(items) = id
-    ok = ok and fin(F('dict', M('items', m))) == before
+    return H.done(ok)
+
+
+def law_dict_roundtrip(c: List[int], d: List[int]) -> bool:
+    """
+    pre: len(c) <= N and len(d) == len(c)
+    pre: all(0 <= x <= 2 for x in c)
+    post: _
+    """
+    m = MD.FD(zip(c, d))
+    before = dict(m)
+    # toDict . items = id ; dict(items) = id ; neutral elements of + and mergeWith
+    ok = fin(F('dict', M('items', m))) == before
     ok = ok and fin(M('toDict', M('items', m), lambda p: p[0], lambda p: p[1])) == before
-    ok = ok and fin(yq.ev('$m + {}', eng=MD.ENG, m=m)) == before and fin(M('mergeWith', m, MD.FD())) == before
-    ok = ok and fin(M('mergeWith', m, m)) == before
+    ok = ok and yq.ev('$m + {}', eng=MD.ENG, m=m) == before and fin(M('mergeWith', m, MD.FD())) == before
+    ok = ok and fin(M('mergeWith', m, m)) == before and fin(M('mergeWith', MD.FD(), m)) == before
     return H.done(ok)
 
 
@@ -427,11 +471,7 @@ def law_zip(c: List[int], d: List[int], it: bool) -> bool:
 
 
 # ------------------------------------------------------------------------------------------------ pipelines
-def _w(x, k):
-    return x is not None and x > k
-
-
-# (yaql text with %(i)s..., call-API step, model) ; argument names are suffixed with the stage number
+# (yaql text, call-API step, model over a python list); argument names are suffixed with the stage number in texts
 OPS = [
     ('where($ > $k%d)', lambda x, a: M('where', x, lambda y: y > a['k']), lambda l, a: [y for y in l if y > a['k']]),
     ('select($ + $k%d)', lambda x, a: M('select', x, lambda y: y + a['k']), lambda l, a: [y + a['k'] for y in l]),
@@ -460,53 +500,62 @@ OPS = [
 NOPS = len(OPS)
 BOUNDS['quick'] = BOUNDS['quick'] % NOPS
 PIPE_NEEDS_NONEMPTY = {15}          # accumulate without seed is undefined on an empty input
+S2SET = H.P('s2set') or list(range(NOPS))
 
 
-def pipe_ok(sels, c, i1, k1, i2, k2, i3, k3, it):
-    args = [{'i': i1, 'k': k1, 'c': tuple(c)}, {'i': i2, 'k': k2, 'c': tuple(c)}, {'i': i3, 'k': k3, 'c': tuple(c)}]
-    x = pres_iter(c) if it else pres_tuple(c)
+def pipe_ref(sels, c, args):
     ref = list(c)
     for stage, s in enumerate(sels):
         if s in PIPE_NEEDS_NONEMPTY and len(ref) == 0:
-            return True                 # outside the domain of the operator: nothing asserted on this path
-        x = OPS[s][1](x, args[stage])
+            return None                 # outside the domain of the operator: nothing asserted on this path
         ref = OPS[s][2](ref, args[stage])
-    return same(fin(x), ref)
+    return ref
 
 
 def pipe_text(sels):
     parts = ['$c0']
     for stage, s in enumerate(sels):
-        t = OPS[s][0]
-        parts.append(t.replace('%d', str(stage + 1)) if '%d' in t else t)
+        parts.append(OPS[s][0].replace('%d', str(stage + 1)))
     return '.'.join(parts)
 
 
-def pipe_ok_text(sels, c, i1, k1, i2, k2, i3, k3, it):
-    ref = list(c)
-    args = [{'i': i1, 'k': k1, 'c': tuple(c)}, {'i': i2, 'k': k2, 'c': tuple(c)}, {'i': i3, 'k': k3, 'c': tuple(c)}]
+def pipe_run(sels, c, args, P):
+    if MODE == 'text':
+        with H.NoTracing():
+            text = pipe_text([int(s) for s in sels])
+        kw = {'c0': P(c), 'c': tuple(c)}
+        for stage, a in enumerate(args):
+            kw['i%d' % (stage + 1)] = a['i']
+            kw['k%d' % (stage + 1)] = a['k']
+        return yq.ev(text, eng=MD.ENG, **kw)
+    x = P(c)
     for stage, s in enumerate(sels):
-        if s in PIPE_NEEDS_NONEMPTY and len(ref) == 0:
-            return True
-        ref = OPS[s][2](ref, args[stage])
-    with H.NoTracing():
-        text = pipe_text([int(s) for s in sels])
-    got = yq.ev(text, eng=MD.ENG, c0=pres_iter(c) if it else pres_tuple(c), c=tuple(c),
-                i1=i1, k1=k1, i2=i2, k2=k2, i3=i3, k3=k3)
-    return same(got, ref)
+        x = OPS[s][1](x, args[stage])           # the lazy intermediate goes straight into the next operator
+    return fin(x)
 
 
-def h_pipe(c: List[int], s2: int, s3: int, i1: int, k1: int, i2: int, k2: int, i3: int, k3: int, it: bool) -> bool:
+def pipe_check(sels, c, i1, k1, i2, k2, i3, k3):
+    args = [{'i': i1, 'k': k1, 'c': tuple(c)}, {'i': i2, 'k': k2, 'c': tuple(c)}, {'i': i3, 'k': k3, 'c': tuple(c)}]
+    outs = [(pn, pipe_run(sels, c, args, PRES[pn])) for pn in ('tuple', 'iter')]
+    ref = pipe_ref(sels, c, args)
+    if ref is None:
+        return True, None, None, None
+    for pn, got in outs:
+        if not same(got, ref):
+            return False, pn, got, ref
+    return True, None, None, ref
+
+
+def h_pipe(c: List[int], s2: int, s3: int, i1: int, k1: int, i2: int, k2: int, i3: int, k3: int) -> bool:
     """
-    pre: len(c) <= N and 0 <= s2 < NOPS
-    pre: 0 <= i1 <= len(c) + 1 and 0 <= i2 <= len(c) + 2 and 0 <= i3 <= len(c) + 2
-    pre: (0 <= s3 < NOPS) if H.P('depth', 2) >= 3 else (s3 == 0 and i3 == 0 and k3 == 0)
-    pre: H.fresh(c, s2, s3, i1, k1, i2, k2, i3, k3, it)
+    pre: len(c) <= N and s2 in S2SET
+    pre: 0 <= i1 <= len(c) + 1 and 0 <= i2 <= len(c) + 2
+    pre: (0 <= s3 < NOPS and 0 <= i3 <= len(c) + 2) if H.P('depth', 2) >= 3 else (s3 == 0 and i3 == 0 and k3 == 0)
+    pre: H.fresh(c, s2, s3, i1, k1, i2, k2, i3, k3)
     post: _
     """
     sels = [H.P('s1', 0), s2] + ([s3] if H.P('depth', 2) >= 3 else [])
-    fn = pipe_ok_text if MODE == 'text' else pipe_ok
-    return H.done(fn(sels, c, i1, k1, i2, k2, i3, k3, it))
+    return H.done(pipe_check(sels, c, i1, k1, i2, k2, i3, k3)[0])
 
 
 # ------------------------------------------------------------------------------------------------ conditions
@@ -550,16 +599,18 @@ def lam_combos(cs, every):
     return [dict((s, l[n % len(l)]) for s, l in zip(slots, lists)) for n in range(width)]
 
 
-def cond_for(key, cs, lams, mode, n, nd, nones, timeout):
+def cond_for(key, cs, lams, mode, n, nd, nones, margin, timeout, twin=True):
     name = key.split('/')[0]
     tag = ','.join('%s=%s' % kv for kv in sorted(lams.items()))
-    bounds_txt = '%s via %s; len($c)<=%d%s%s; ints in [-len-2,len+2] within the documented domain; %s' % (
+    bounds_txt = '%s via %s; len($c)<=%d%s%s; int arguments in [-len-%d,len+%d] within the documented domain%s; %s' % (
         key, 'context call API + #finalize' if mode == 'api' else 'YAQL text ' + repr(cs['text']), n,
         ', len($d)<=%d' % nd if 'd' in cs['uses'] else '',
-        ', <=%d null element(s)' % nones if cs['nones'] else ', no nulls',
+        ', <=%d null element(s)' % nones if (cs['nones'] and nones) else ', no nulls', margin, margin,
+        ', elements in 0..2 and key constants in -1..3 (dictionary keys)' if cs['small'] else '',
         'presented as ' + '+'.join(cs['pres']))
-    return {'name': 'fn[%s|%s|%s|%s]' % (key, cs['id'], tag, mode), 'func': 'h_fn', 'timeout': timeout,
-            'param': {'case': cs['id'], 'name': name, 'lams': lams, 'mode': mode, 'n': n, 'nd': nd, 'nones': nones},
+    return {'name': 'fn[%s|%s|%s|%s]' % (key, cs['id'], tag, mode), 'func': 'h_fn', 'timeout': timeout, 'twin': twin,
+            'param': {'case': cs['id'], 'name': name, 'lams': lams, 'mode': mode, 'n': n, 'nd': nd, 'nones': nones,
+                      'margin': margin},
             'bounds': bounds_txt}
 
 
@@ -567,6 +618,8 @@ def conditions(tier, seed):
     quick = tier == 'quick'
     out = []
     keys = registry()
+    seen_cases = set()
+    ntext = 0
     for key in keys:
         cids = [cid for cid in MD.BY_KEY.get(key, [])]
         if not cids:
@@ -575,30 +628,34 @@ def conditions(tier, seed):
             continue
         for cid in cids:
             cs = CASES[cid]
+            alias = cid in seen_cases           # same payload under a second name (filter, map, limit, reduce)
+            seen_cases.add(cid)
             combos = lam_combos(cs, every=not quick)
             has_lam = bool(cs['lams'])
             for cn, lams in enumerate(combos):
-                ints_only = any(LAMS[l].ints for l in lams.values())
                 if quick:
-                    n, nd, nones, t = 2, 2, 1, 90
-                    if cs['cost'] >= 3:
-                        nd = 1 if 'd' in cs['uses'] and cid not in ('join',) else nd
+                    n, nd, t, margin = (1 if alias else 2), 2, 90, 1
+                    nones = 1 if cs['cost'] == 1 else 0
+                    if cs['cost'] >= 3 and 'd' in cs['uses'] and cid != 'join':
+                        nd = 1
                     if cs['api'] is not None:
                         if cn == 0:
-                            out.append(cond_for(key, cs, lams, 'api', n, nd, nones, t))
-                        elif has_lam and cs['text'] and cn == 1:
-                            # the second lambda of the family goes through YAQL text (yaql lambda, parser-level call)
-                            out.append(cond_for(key, cs, lams, 'text', n, nd, 0 if cs['cost'] >= 2 else nones, t))
+                            out.append(cond_for(key, cs, lams, 'api', n, nd, nones, margin, t))
+                        elif has_lam and cs['text'] and cn == 1 and not alias:
+                            # the second lambda of the family goes through YAQL text (yaql lambda, parser-level call);
+                            # half of these per run, rotated by VERIF_SEED
+                            ntext += 1
+                            if ntext % 2 == seed % 2:
+                                out.append(cond_for(key, cs, lams, 'text', n, nd, 0, margin, t, twin=False))
                     elif cn == 0:
-                        out.append(cond_for(key, cs, lams, 'text', n, nd, nones, t))
+                        out.append(cond_for(key, cs, lams, 'text', n, nd, nones, margin, t))
                 else:
                     n = 3 if (has_lam or cs['cost'] >= 2 or 'd' in cs['uses']) else 4
-                    nd = 2
                     nones = 2 if cs['cost'] < 3 else 1
                     if cs['api'] is not None:
-                        out.append(cond_for(key, cs, lams, 'api', n, nd, nones, 600))
+                        out.append(cond_for(key, cs, lams, 'api', n, 2, nones, 2, 600))
                     if cs['text'] and (cs['api'] is None or cn == 0 or has_lam):
-                        out.append(cond_for(key, cs, lams, 'text', min(n, 3), nd, 1, 600))
+                        out.append(cond_for(key, cs, lams, 'text', min(n, 3), 2, 1, 2, 600))
     # listed findings: probes restricted to the class
     if K_UNPACK in KNOWN:
         out.append({'name': 'probe[unpack-lazy-first-element]', 'func': 'h_fn', 'timeout': 90, 'kind': 'probe',
@@ -611,33 +668,43 @@ def conditions(tier, seed):
                               'nones': 0, 'probe_key': K_INSERT},
                     'bounds': 'insert(position < 0, value) on a one-shot iterator, len <= 2'})
     # laws
-    ln = 3 if quick else 4
     lt = 100 if quick else 600
-    laws = [('law_order[asc]', 'law_order', {'desc': False}), ('law_order[desc]', 'law_order', {'desc': True}),
-            ('law_group[gtk]', 'law_group', {'key': 'gtk'}), ('law_group[id]', 'law_group', {'key': 'id'}),
-            ('law_lists', 'law_lists', {}), ('law_distinct', 'law_distinct', {}), ('law_sets', 'law_sets', {}),
-            ('law_dict', 'law_dict', {}), ('law_zip', 'law_zip', {})]
+    laws = [('law_order[asc]', 'law_order', {'desc': False}, 2), ('law_order[desc]', 'law_order', {'desc': True}, 2),
+            ('law_group[gtk]', 'law_group', {'key': 'gtk'}, 3), ('law_group[id]', 'law_group', {'key': 'id'}, 2),
+            ('law_lists', 'law_lists', {}, 2), ('law_split_enum', 'law_split_enum', {}, 2),
+            ('law_distinct', 'law_distinct', {}, 3), ('law_sets', 'law_sets', {}, 2),
+            ('law_set_order', 'law_set_order', {}, 2), ('law_dict', 'law_dict', {}, 2),
+            ('law_dict_roundtrip', 'law_dict_roundtrip', {}, 2), ('law_zip', 'law_zip', {}, 2)]
     for f1 in ('orderBy', 'orderByDescending'):
         for f2 in ('thenBy', 'thenByDescending'):
-            laws.append(('law_thenby[%s,%s]' % (f1, f2), 'law_thenby', {'first': f1, 'then': f2}))
-    for name, func, param in laws:
-        small = func in ('law_thenby', 'law_order', 'law_dict', 'law_sets')
-        n = (2 if quick else 3) if small else ln
+            laws.append(('law_thenby[%s,%s]' % (f1, f2), 'law_thenby', {'first': f1, 'then': f2}, 2))
+    for name, func, param, n in laws:
+        n = n if quick else n + 1
         out.append({'name': name, 'func': func, 'timeout': lt, 'param': dict(param, n=n),
-                    'bounds': 'model-free law, symbolic int list(s) len <= %d (+ one null where meaningful), tuple and '
+                    'bounds': 'model-free law, symbolic int list(s) len <= %d (+ null where meaningful), tuple and '
                               'one-shot iterator' % n})
-    # pipelines
-    firsts = list(range(NOPS))
+    # pipelines: first operator fixed per condition, second (third) by symbolic selector
+    halves = [list(range(0, NOPS, 2)), list(range(1, NOPS, 2))]
     if quick:
-        firsts = [s for s in firsts if s % 3 == seed % 3]
-    for s1 in firsts:
-        out.append({'name': 'pipe2[%s|*]' % OPS[s1][0], 'func': 'h_pipe', 'timeout': 100 if quick else 600,
-                    'param': {'s1': s1, 'depth': 2, 'mode': 'api' if quick else 'text', 'n': 2},
-                    'bounds': '$c.%s.<op2>: op2 chosen by a symbolic selector among %d lazy operators; len($c)<=2, '
-                              'symbolic int arguments and lambda constants; every intermediate consumed once; %s'
-                              % (OPS[s1][0], NOPS, 'call API' if quick else 'YAQL text built from the selectors')})
-    if not quick:
+        third = [s for s in range(NOPS) if s % 6 == seed % 6]
+        for s1 in third:
+            for hn, half in enumerate(halves):
+                out.append({'name': 'pipe2[%s|%s]' % (OPS[s1][0], 'even' if hn == 0 else 'odd'), 'func': 'h_pipe',
+                            'timeout': 100, 'twin': hn == 0,
+                            'param': {'s1': s1, 'depth': 2, 'mode': 'api', 'n': 2, 's2set': half},
+                            'bounds': '$c.%s.<op2>: op2 chosen by a symbolic selector among %d lazy operators (half of '
+                                      'the table); len($c)<=2, symbolic int arguments and lambda constants; tuple and '
+                                      'one-shot iterator; every intermediate consumed once; call API'
+                                      % (OPS[s1][0], len(half))})
+    else:
         for s1 in range(NOPS):
+            for hn, half in enumerate(halves):
+                for mode in ('api', 'text'):
+                    out.append({'name': 'pipe2[%s|%s|%s]' % (OPS[s1][0], 'even' if hn == 0 else 'odd', mode),
+                                'func': 'h_pipe', 'timeout': 600,
+                                'param': {'s1': s1, 'depth': 2, 'mode': mode, 'n': 2, 's2set': half},
+                                'bounds': '$c.%s.<op2>: op2 by symbolic selector (half of the %d-operator table); '
+                                          'len($c)<=2; %s' % (OPS[s1][0], NOPS, mode)})
             out.append({'name': 'pipe3[%s|*|*]' % OPS[s1][0], 'func': 'h_pipe', 'timeout': 900,
                         'param': {'s1': s1, 'depth': 3, 'mode': 'api', 'n': 1},
                         'bounds': '3-operator pipelines, second and third operator by symbolic selectors, len($c)<=1'})
@@ -750,7 +817,9 @@ def replay(cond, args):
         what = '%s fails for %r' % (cond['name'], vals)
         if func == 'h_pipe':
             sels = [H.P('s1', 0), vals['s2']] + ([vals['s3']] if H.P('depth', 2) >= 3 else [])
-            what = 'pipeline %s with %r differs from the composition of the per-operator models' % (pipe_text(sels), vals)
+            res = pipe_check(sels, vals['c'], vals['i1'], vals['k1'], vals['i2'], vals['k2'], vals['i3'], vals['k3'])
+            what = 'pipeline %s with %r (as %s) gives %r, the composition of the per-operator models gives %r' % (
+                pipe_text(sels), vals, res[1], res[2], res[3])
         return {'reproduced': True, 'key': 'C13/%s' % cond['name'].split('[')[0], 'what': what}
     if not bounds(**vals):
         return {'reproduced': False, 'error': 'assignment outside the precondition'}
